@@ -597,7 +597,7 @@ static void run_mt(std::istream &in, const std::string &kind, int nthr, bool ste
             end_step_mode();
             {
                 std::unique_lock g(vt::G);
-                if (!vt::Gcv.wait_for(g, std::chrono::seconds(15), [&] { return done.load(); }))
+                if (!vt::Gcv.wait_for(g, std::chrono::seconds(8), [&] { return done.load(); }))
                     vt::fatal("hang: ~scheduler() does not return: the worker missed the stop request and stays parked", 43);
             }
             destroyer.join();
@@ -759,8 +759,8 @@ static void run_stoprace(std::istream &in, long long tp) {
             vt::stall_clock = false;
             --vt::blocked;
             vt::Gcv.notify_all();
-            // ~scheduler returns promptly unless the notification was lost; give it 15 s of real time
-            vt::Gcv.wait_for(g, std::chrono::seconds(15), [&] { return done.load(); });
+            // ~scheduler returns promptly unless the notification was lost; give it 8 s of real time
+            vt::Gcv.wait_for(g, std::chrono::seconds(8), [&] { return done.load(); });
         }
         bool prompt = done;
         if (!prompt) {
